@@ -69,6 +69,18 @@ pub fn run(sc: &Value) -> Value {
                                      "wrong_content": wrong, "differences": diffs.len()}));
             }
             out["versions"] = json!(versions);
+            if sc["validate_after"].as_bool().unwrap_or(false) {
+                let mut verrs = Vec::new();
+                let mut vok = true;
+                for quick in [false, true] {
+                    let vm = TestMonitor::arc();
+                    let vr = archive.validate(&ValidateOptions { skip_block_hashes: quick }, vm.clone()).await;
+                    vok &= vr.is_ok();
+                    verrs.extend(vm.take_errors().iter().map(|e| format!("{e}")));
+                }
+                out["validate_ok"] = json!(vok);
+                out["validate_errors"] = json!(verrs);
+            }
             if follow_up {
                 let fm = TestMonitor::arc();
                 log2.lock().unwrap().push(("follow_up".to_string(), String::new()));
@@ -78,6 +90,7 @@ pub fn run(sc: &Value) -> Value {
                 out["follow_up_ok"] = json!(fs.is_ok());
                 out["follow_up_errors"] = json!(fs.as_ref().map(|s| s.errors).unwrap_or(0));
                 out["follow_up_written_blocks"] = json!(fs.as_ref().map(|s| s.written_blocks).unwrap_or(0));
+                out["follow_up_unmodified"] = json!(fs.as_ref().map(|s| s.unmodified_files).unwrap_or(0));
                 let dest = tmp_path.join("dest-followup");
                 let rm = TestMonitor::arc();
                 let rr = restore(&archive, &dest, RestoreOptions::default(), rm.clone()).await;
